@@ -1,64 +1,45 @@
 // C05: BalanceRR calls are total / terminating under concurrent change.  Model: coq/model/SimpleRR.v.
 // input/observation format: see coq/run/RunC05.v.
 //
-// Mid-call availability flips are injected deterministically for WrrSimple through the real code's own
-// debug log call inside the scan loop (bfe_debug.DebugBal + a synchronous log4go writer): after every
-// failed probe the writer applies the next scripted flip-set with the exported SetAvail.  The same writer
-// aborts a call after the probe bound of the model (simple_fuel = len(script)+2*len), within which every call of
-// the (repaired) code is proved to return.  algo 5 = WrrSimple with the log hook off and a real 2 s deadline.
+// Mid-call changes of availability / connNum are injected deterministically for EVERY algorithm: the harness holds the
+// write lock of every backend's own RWMutex while Balance runs in another goroutine; each Avail()/ConnNum() read
+// of the real code blocks on that lock, the harness sees the pending reader (RWMutex.readerCount), lets exactly
+// that one read through (Unlock; Lock - the writer is announced before the reader can come back, the process runs
+// with GOMAXPROCS(1) and GC off during a call), then applies the next scripted flip-set with a hook that writes the
+// fields under the harness's lock.  A call that wants more reads than the bound is reported as [-3] (its goroutine
+// stays parked).  algo 5 = WrrSimple without gating and a real 2 s deadline.
 package main
 
 import (
 	"fmt"
-	"strings"
-	"sync"
+	"net"
+	"reflect"
+	"runtime"
+	"runtime/debug"
+	"sync/atomic"
 	"time"
+	"unsafe"
 
 	"verif/harness/hv"
 
-	"github.com/baidu/go-lib/log"
-	"github.com/baidu/go-lib/log/log4go"
 	"github.com/bfenetworks/bfe/bfe_balance/backend"
+	"github.com/bfenetworks/bfe/bfe_balance/bal_gslb"
 	"github.com/bfenetworks/bfe/bfe_balance/bal_slb"
+	"github.com/bfenetworks/bfe/bfe_basic"
+	"github.com/bfenetworks/bfe/bfe_config/bfe_cluster_conf/cluster_conf"
+	"github.com/bfenetworks/bfe/bfe_config/bfe_cluster_conf/gslb_conf"
+	"github.com/bfenetworks/bfe/bfe_http"
 	"github.com/bfenetworks/bfe/bfe_config/bfe_cluster_conf/cluster_table_conf"
-	"github.com/bfenetworks/bfe/bfe_debug"
 	"github.com/spaolacci/murmur3"
 )
 
-type probeWriter struct {
-	mu     sync.Mutex
-	prefix string // only log lines about backends of the running case count (a leaked spinner may still log)
-	count  int
-	bound  int
-	flips  hv.L
-	byID   map[int]*backend.BfeBackend
-	active bool
+// readerCount of the backend's embedded sync.RWMutex: -(1<<30)+k while a writer holds it and k readers wait
+func readerCount(b *backend.BfeBackend) *int32 {
+	f := reflect.ValueOf(&b.RWMutex).Elem().FieldByName("readerCount")
+	return (*int32)(unsafe.Pointer(f.UnsafeAddr()))
 }
 
-type probeAbort struct{}
-
-func (w *probeWriter) LogWrite(rec *log4go.LogRecord) {
-	w.mu.Lock()
-	defer w.mu.Unlock()
-	if !w.active || !strings.HasPrefix(rec.Message, w.prefix) {
-		return
-	}
-	w.count++
-	if w.count > w.bound {
-		panic(probeAbort{})
-	}
-	if w.count <= len(w.flips) {
-		for _, f := range hv.AsList(w.flips[w.count-1]) {
-			fl := hv.AsList(f)
-			if b := w.byID[int(hv.AsInt(fl[0]))]; b != nil && hv.AsInt(fl[1]) == 0 {
-				b.SetAvail(hv.AsInt(fl[2]) != 0)
-			}
-		}
-	}
-}
-func (w *probeWriter) Close() {}
-
-var pw = &probeWriter{}
+const rwmutexMaxReaders = 1 << 30
 
 func addr(id int) string { return fmt.Sprintf("h%03d", id) }
 
@@ -69,7 +50,7 @@ func mkConf(v hv.Val) cluster_table_conf.SubClusterBackend {
 	for _, e := range hv.AsList(v) {
 		p := hv.AsList(e)
 		id, w := int(hv.AsInt(p[0])), int(hv.AsInt(p[1]))
-		name, a, port := fmt.Sprintf("c%d-n%d", caseSerial, id), addr(id), 80
+		name, a, port := fmt.Sprintf("n%d", id), addr(id), 80
 		conf = append(conf, &cluster_table_conf.BackendConf{Name: &name, Addr: &a, Port: &port, Weight: &w})
 	}
 	return conf
@@ -107,11 +88,7 @@ func balance(brr *bal_slb.BalanceRR, algo int, key []byte, flips hv.L) (res hv.V
 	call := func(a int) (r hv.Val, ret bool) {
 		defer func() {
 			if e := recover(); e != nil {
-				if _, ok := e.(probeAbort); ok {
-					r, ret = hv.Timeout(), false
-				} else {
-					r, ret = hv.Panic(), true
-				}
+				r, ret = hv.Panic(), true
 			}
 		}()
 		b, err := brr.Balance(a, key)
@@ -127,7 +104,7 @@ func balance(brr *bal_slb.BalanceRR, algo int, key []byte, flips hv.L) (res hv.V
 		}
 		return hv.L{hv.I(0), hv.I(idOf(b))}, true
 	}
-	if algo == 5 { // real deadline, no log hook
+	if algo == 5 { // real deadline, no gating
 		ch := make(chan hv.Val, 1)
 		go func() { r, _ := call(bal_slb.WrrSimple); ch <- r }()
 		select {
@@ -147,26 +124,207 @@ func balance(brr *bal_slb.BalanceRR, algo int, key []byte, flips hv.L) (res hv.V
 			return hv.Timeout(), false
 		}
 	}
+	// gated run
+	bs := bal_slb.VerifC05Backends(brr)
+	bound := len(flips) + 8*len(bs) + 8
 	if algo == 0 {
-		bs := bal_slb.VerifC05Backends(brr)
-		pw.byID = map[int]*backend.BfeBackend{}
-		for _, b := range bs {
-			pw.byID[idOf(b)] = b
-		}
-		pw.mu.Lock()
-		pw.count, pw.flips, pw.bound = 0, flips, len(flips)+2*len(bs)
-		pw.prefix = fmt.Sprintf("backend[c%d-", caseSerial)
-		pw.active = true
-		pw.mu.Unlock()
-		bfe_debug.DebugBal = true
-		defer func() {
-			bfe_debug.DebugBal = false
-			pw.mu.Lock()
-			pw.active = false
-			pw.mu.Unlock()
-		}()
+		bound = len(flips) + 2*len(bs) // = simple_fuel of the model
 	}
-	return call(algo)
+	return gated(bs, flips, bound, func() (hv.Val, bool) { return call(algo) }, func() hv.Val { return state(brr) })
+}
+
+// gated runs `run` in its own goroutine while the harness holds the write lock of every backend in bs: every
+// Avail()/ConnNum() read blocks, is let through alone, and is followed by the next scripted flip-set.
+func gated(bs []*backend.BfeBackend, flips hv.L, bound int, run func() (hv.Val, bool), snapshot func() hv.Val) (hv.Val, bool) {
+	rc := make([]*int32, len(bs))
+	byID := map[int]*backend.BfeBackend{}
+	for i, b := range bs {
+		b.Lock()
+		rc[i] = readerCount(b)
+		byID[idOf(b)] = b
+	}
+	unlockAll := func() {
+		for _, b := range bs {
+			b.Unlock()
+		}
+	}
+	type result struct {
+		r   hv.Val
+		ret bool
+	}
+	done := make(chan result, 1)
+	go func() {
+		r, ret := run()
+		done <- result{r, ret}
+	}()
+	reads, idle := 0, 0
+	for {
+		select {
+		case x := <-done:
+			unlockAll()
+			return x.r, x.ret
+		default:
+		}
+		var pend *backend.BfeBackend
+		for i, b := range bs {
+			if atomic.LoadInt32(rc[i])+rwmutexMaxReaders > 0 {
+				pend = b
+				break
+			}
+		}
+		if pend == nil {
+			idle++
+			if idle > 50000000 { // neither finished nor reading: stuck elsewhere
+				stuck = snapshot()
+				return hv.Timeout(), false
+			}
+			runtime.Gosched()
+			continue
+		}
+		idle = 0
+		reads++
+		if reads > bound {
+			// the call wants more reads than any returning call needs: leave it parked (it holds the list lock)
+			stuck = snapshot()
+			return hv.Timeout(), false
+		}
+		pend.Unlock() // the pending read proceeds ...
+		pend.Lock()   // ... and is over when the write lock is ours again
+		if reads <= len(flips) {
+			for _, f := range hv.AsList(flips[reads-1]) {
+				fl := hv.AsList(f)
+				if b := byID[int(hv.AsInt(fl[0]))]; b != nil {
+					backend.VerifC05SetLocked(b, int(hv.AsInt(fl[1])), int(hv.AsInt(fl[2])))
+				}
+			}
+		}
+	}
+}
+
+// ---- gslb cases: [[7 subs retryMax crossRetry] ops] through the real BalanceGslb.Balance ----
+func gslbErr(err error) int {
+	switch err {
+	case bfe_basic.ErrBkRetryTooMany:
+		return 3
+	case bfe_basic.ErrBkNoSubCluster:
+		return 4
+	case bfe_basic.ErrBkNoBackend:
+		return 5
+	case bfe_basic.ErrBkNoSubClusterCross:
+		return 6
+	case bfe_basic.ErrBkCrossRetryBalance:
+		return 7
+	}
+	return 9
+}
+
+func implGslb(hdr hv.L, ops hv.L) hv.Val {
+	gc := gslb_conf.GslbClusterConf{}
+	cb := cluster_table_conf.ClusterBackend{}
+	for _, sv := range hv.AsList(hdr[1]) {
+		p := hv.AsList(sv)
+		name := fmt.Sprintf("s%d", hv.AsInt(p[0]))
+		gc[name] = int(hv.AsInt(p[1]))
+		cb[name] = mkConf(p[2])
+	}
+	rmax, cross := int(hv.AsInt(hdr[2])), int(hv.AsInt(hdr[3]))
+	bal := bal_gslb.NewBalanceGslb("cluster")
+	if err := bal.Init(gc); err != nil {
+		return hv.Err(0)
+	}
+	bal.BackendInit(cb)
+	all := func() (bs []*backend.BfeBackend, brrs []*bal_slb.BalanceRR) {
+		_, _, brrs = bal_gslb.VerifC09Subs(bal)
+		for _, r := range brrs {
+			bs = append(bs, bal_slb.VerifC05Backends(r)...)
+		}
+		return
+	}
+	gstate := func() hv.Val {
+		_, brrs := all()
+		l := hv.L{}
+		for _, r := range brrs {
+			l = append(l, state(r))
+		}
+		return l
+	}
+	findB := func(id int) *backend.BfeBackend {
+		bs, _ := all()
+		for _, b := range bs {
+			if idOf(b) == id {
+				return b
+			}
+		}
+		return nil
+	}
+	out := hv.L{}
+	for _, opv := range ops {
+		op := hv.AsList(opv)
+		switch hv.AsInt(op[0]) {
+		case 6:
+			algo, retry := int(hv.AsInt(op[1])), int(hv.AsInt(op[2]))
+			key := append([]byte{}, hv.AsBytes(op[3])...)
+			if len(key) == 0 {
+				key = []byte{0} // an empty key would make BalanceGslb draw a random one
+			}
+			h := murmur3.Sum64(key)
+			st, hh, sticky, mode := cluster_conf.ClientIpOnly, "", algo == 2, cluster_conf.BalanceModeWrr
+			if algo == 4 {
+				mode = cluster_conf.BalanceModeWlc
+			}
+			bal.SetGslbBasic(cluster_conf.GslbBasicConf{CrossRetry: &cross, RetryMax: &rmax,
+				HashConf: &cluster_conf.HashConf{HashStrategy: &st, HashHeader: &hh, SessionSticky: &sticky}, BalanceMode: &mode})
+			req := &bfe_basic.Request{HttpRequest: &bfe_http.Request{Header: make(bfe_http.Header), RequestURI: "/"},
+				Stat: &bfe_basic.RequestStat{}}
+			req.ClientAddr = &net.TCPAddr{IP: net.IP(key), Port: 1}
+			req.RetryTime = retry
+			flips := hv.AsList(op[4])
+			bs, _ := all()
+			stuck = nil
+			r, returned := gated(bs, flips, len(flips)+16*len(bs)+16, func() (r hv.Val, ret bool) {
+				defer func() {
+					if e := recover(); e != nil {
+						r, ret = hv.Panic(), true
+					}
+				}()
+				b, err := bal.Balance(req)
+				if err != nil {
+					return hv.Err(gslbErr(err)), true
+				}
+				return hv.L{hv.I(0), hv.I(idOf(b))}, true
+			}, gstate)
+			sub := -1
+			if req.Backend.SubclusterName != "" {
+				fmt.Sscanf(req.Backend.SubclusterName, "s%d", &sub)
+			}
+			if stuck != nil {
+				return append(out, hv.L{hv.U(h), r, hv.I(sub), hv.I(req.RetryTime), stuck})
+			}
+			out = append(out, hv.L{hv.U(h), r, hv.I(sub), hv.I(req.RetryTime), gstate()})
+			if !returned {
+				return out
+			}
+		case 2:
+			if b := findB(int(hv.AsInt(op[1]))); b != nil {
+				b.SetAvail(hv.AsInt(op[2]) != 0)
+			}
+			out = append(out, hv.I(0))
+		case 3:
+			if b := findB(int(hv.AsInt(op[1]))); b != nil {
+				d := int(hv.AsInt(op[2]))
+				for ; d > 0; d-- {
+					b.IncConnNum()
+				}
+				for ; d < 0; d++ {
+					b.DecConnNum()
+				}
+			}
+			out = append(out, hv.I(0))
+		default:
+			return hv.Err(0)
+		}
+	}
+	return out
 }
 
 func impl(in hv.Val) hv.Val {
@@ -175,6 +333,12 @@ func impl(in hv.Val) hv.Val {
 		return hv.Err(0)
 	}
 	caseSerial++
+	if caseSerial%64 == 0 {
+		runtime.GC() // automatic GC is off (see setup): collect between cases only
+	}
+	if hdr := hv.AsList(top[0]); len(hdr) == 4 && hv.String(hdr[0]) == "7" {
+		return implGslb(hdr, hv.AsList(top[1]))
+	}
 	brr := bal_slb.NewBalanceRR("sub")
 	brr.Init(mkConf(top[0]))
 	out := hv.L{}
@@ -233,7 +397,107 @@ func perm(r *hv.Rng, n int) []int {
 
 var weights = []int{-1, 0, 1, 1, 1, 2, 3}
 
+func genFlips(r *hv.Rng, ids []int) hv.L {
+	flips := hv.L{}
+	oneFlip := func() hv.Val {
+		id := ids[r.Intn(len(ids))]
+		if r.Chance(1, 4) {
+			return hv.L{hv.I(id), hv.I(1), hv.I(r.Intn(4))}
+		}
+		return hv.L{hv.I(id), hv.I(0), hv.Bool(r.Bool())}
+	}
+	switch r.Intn(3) {
+	case 0:
+		for s := r.Range(1, 8); s > 0; s-- {
+			set := hv.L{}
+			for f := r.Intn(3); f > 0; f-- {
+				set = append(set, oneFlip())
+			}
+			flips = append(flips, set)
+		}
+	case 1: // quiet for k reads, then (almost) everything goes down at once
+		for k := r.Intn(4*len(ids) + 2); k > 0; k-- {
+			flips = append(flips, hv.L{})
+		}
+		set := hv.L{}
+		for _, id := range ids {
+			if !r.Chance(1, 6) {
+				set = append(set, hv.L{hv.I(id), hv.I(0), hv.I(0)})
+			}
+		}
+		flips = append(flips, set)
+	default: // one backend down, later up again
+		for k := r.Intn(2*len(ids) + 1); k > 0; k-- {
+			flips = append(flips, hv.L{})
+		}
+		id := ids[r.Intn(len(ids))]
+		flips = append(flips, hv.L{hv.L{hv.I(id), hv.I(0), hv.I(0)}})
+		for k := r.Intn(3); k > 0; k-- {
+			flips = append(flips, hv.L{oneFlip()})
+		}
+		flips = append(flips, hv.L{hv.L{hv.I(id), hv.I(0), hv.I(1)}})
+	}
+	return flips
+}
+
+// a BalanceGslb cluster: 1-3 sub-clusters, at most two of weight >= 0 (one cross-retry candidate), total weight > 0
+func genGslb(r *hv.Rng) (string, hv.Val) {
+	names := perm(r, 4)
+	nsub := r.Range(1, 3)
+	ws := make([]int, nsub)
+	for {
+		nonneg, total := 0, 0
+		for k := range ws {
+			ws[k] = []int{-1, 0, 1, 1, 2, 3}[r.Intn(6)]
+			if ws[k] >= 0 {
+				nonneg++
+			}
+			if ws[k] > 0 {
+				total += ws[k]
+			}
+		}
+		if total > 0 && nonneg <= 2 {
+			break
+		}
+	}
+	ids := perm(r, 10)
+	var all []int
+	subs := hv.L{}
+	for k := 0; k < nsub; k++ {
+		conf := hv.L{}
+		for n := r.Intn(4); n > 0 && len(all) < 10; n-- {
+			id := ids[len(all)]
+			all = append(all, id)
+			conf = append(conf, hv.L{hv.I(id), hv.I([]int{-1, 0, 1, 1, 2}[r.Intn(5)])})
+		}
+		subs = append(subs, hv.L{hv.I(names[k]), hv.I(ws[k]), conf})
+	}
+	rmax, cross := r.Intn(3), r.Intn(3)
+	ops := hv.L{}
+	class := "gslb"
+	for n := r.Range(1, 10); n > 0; n-- {
+		switch c := r.Intn(20); {
+		case c < 13:
+			flips := hv.L{}
+			if len(all) > 0 && r.Chance(1, 2) {
+				flips = genFlips(r, all)
+				class = "gslb-flips"
+			}
+			ops = append(ops, hv.L{hv.I(6), hv.I([]int{1, 1, 2, 4}[r.Intn(4)]), hv.I(r.Intn(rmax + cross + 2)),
+				hv.B(r.Bytes(r.Range(1, 5))), flips})
+		case c < 18:
+			ops = append(ops, hv.L{hv.I(2), hv.I(r.Intn(10)), hv.Bool(r.Chance(1, 3))})
+		default:
+			ops = append(ops, hv.L{hv.I(3), hv.I(r.Intn(10)), hv.I(r.Range(-1, 2))})
+		}
+	}
+	return class, hv.L{hv.L{hv.I(7), subs, hv.I(rmax), hv.I(cross)}, ops}
+}
+
 func gen(r *hv.Rng, i int, tier string) (string, hv.Val) {
+	if r.Chance(1, 5) {
+		return genGslb(r)
+	}
 	n := r.Intn(6)
 	if r.Chance(1, 25) {
 		n = 0
@@ -265,15 +529,46 @@ func gen(r *hv.Rng, i int, tier string) (string, hv.Val) {
 			flips := hv.L{}
 			if algo == 0 {
 				simpleUsed = true
-				if r.Chance(2, 5) && len(order) > 0 {
-					flipsUsed = true
-					for s := r.Range(1, 6); s > 0; s-- {
+			}
+			if r.Chance(2, 5) && len(order) > 0 {
+				flipsUsed = true
+				oneFlip := func() hv.Val {
+					id := order[r.Intn(len(order))]
+					if r.Chance(1, 4) {
+						return hv.L{hv.I(id), hv.I(1), hv.I(r.Intn(4))} // connNum := 0..3
+					}
+					return hv.L{hv.I(id), hv.I(0), hv.Bool(r.Bool())}
+				}
+				switch r.Intn(3) {
+				case 0: // random flip-sets
+					for s := r.Range(1, 8); s > 0; s-- {
 						set := hv.L{}
 						for f := r.Intn(3); f > 0; f-- {
-							set = append(set, hv.L{hv.I(order[r.Intn(len(order))]), hv.I(0), hv.Bool(r.Bool())})
+							set = append(set, oneFlip())
 						}
 						flips = append(flips, set)
 					}
+				case 1: // quiet for k reads, then everything goes down at once (e.g. between the two scans of leastConns)
+					for k := r.Intn(4*len(order) + 2); k > 0; k-- {
+						flips = append(flips, hv.L{})
+					}
+					set := hv.L{}
+					for _, id := range order {
+						if !r.Chance(1, 6) {
+							set = append(set, hv.L{hv.I(id), hv.I(0), hv.I(0)})
+						}
+					}
+					flips = append(flips, set)
+				default: // down, then up again a few reads later
+					for k := r.Intn(2*len(order) + 1); k > 0; k-- {
+						flips = append(flips, hv.L{})
+					}
+					id := order[r.Intn(len(order))]
+					flips = append(flips, hv.L{hv.L{hv.I(id), hv.I(0), hv.I(0)}})
+					for k := r.Intn(3); k > 0; k-- {
+						flips = append(flips, hv.L{oneFlip()})
+					}
+					flips = append(flips, hv.L{hv.L{hv.I(id), hv.I(0), hv.I(1)}})
 				}
 			}
 			ops = append(ops, hv.L{hv.I(1), hv.I(algo), hv.B(r.Bytes(r.Intn(6))), flips})
@@ -340,7 +635,8 @@ func gen(r *hv.Rng, i int, tier string) (string, hv.Val) {
 }
 
 func setup(tier string) {
-	log.Logger = log4go.Logger{"verif": &log4go.Filter{Level: log4go.DEBUG, LogWriter: pw}}
+	runtime.GOMAXPROCS(1)
+	debug.SetGCPercent(-1)
 }
 
 func main() {
